@@ -274,6 +274,7 @@ theorem enc_aux (hws : w.SupU cfg.gen) :
       | flt k => simp only [unAny]; exact .flt
       | str s => simp only [unAny]; exact .str
       | bytes h => simp only [unAny]; exact .bytes
+      | mdict d kvs => simp [wellTypedAny] at hwt
       | _ => simp only [unAny]; exact .opaque
     refine ⟨hAny, ?_⟩
     intro m
@@ -341,6 +342,7 @@ theorem enc_aux (hws : w.SupU cfg.gen) :
           rw [wellTyped] at hwt
           have hel := (wellTypedKV_iff w kt vt kvs).mp hwt
           simp only [Ty.supU, Bool.and_eq_true] at hs
+          replace hs := hs.1
           simp at hx
           rw [un]
           by_cases hg : cfg.gen = true
